@@ -130,19 +130,143 @@ def exact_ok(values, n_bits=53):
     return sum(abs(v) for v in values if v is not None) < 2 ** n_bits
 
 
+OFFS_KINDS = ["tuple", "list", "ndarray", "ndarray-ro", "ndarray-i32", "np-scalars", "tuple-of-tuples", "tuple-of-lists",
+              "array2d", "array2d-i32", "array2d-i16", "array2d-u8", "array2d-ro", "array2d-f", "array2d-view"]
+OFFS_DT = {"ndarray-i32": np.int32, "array2d-i32": np.int32, "array2d-i16": np.int16, "array2d-u8": np.uint8}
+
+
+def offs_fit(arrs, dtype):
+    """the offsets, their spread and the far corners of the images all lie in the range of the integer dtype (no
+    wrap-around in `offset - min_offset`, whatever the code computes in that dtype)"""
+    info = np.iinfo(dtype)
+    for k in range(len(arrs[0]["off"])):
+        lo = min(a["off"][k] for a in arrs)
+        hi = max(a["off"][k] + a["shape"][k] for a in arrs)
+        if lo < info.min or hi > info.max or hi - lo > info.max:
+            return False
+    return True
+
+
 def make_offsets(case):
-    """the offsets container pewlib receives: tuples (default), lists, int64 arrays, read-only int64 arrays"""
+    """(the offsets object pewlib receives, the kind really used).  Kinds: a list of tuples (default) / of lists / of 1-d
+    int64 (read-only, int32) arrays / of tuples of NumPy scalars, a tuple of tuples / of lists, ONE 2-d integer ndarray
+    (int64, int32, int16, uint8; read-only; Fortran order; a view of every second row of a larger table).  A narrow
+    dtype is used only when the offsets fit it (otherwise int64), arrays only when they fit int64 (otherwise tuples of
+    Python integers)."""
     kind = case.get("offs_kind", "tuple")
-    offs = [a["off"] for a in case["arrays"]]
+    arrs = case["arrays"]
+    offs = [a["off"] for a in arrs]
+    if kind not in OFFS_KINDS:
+        kind = "tuple"
+    if kind in OFFS_DT and not offs_fit(arrs, OFFS_DT[kind]):
+        kind = "ndarray" if kind.startswith("ndarray") else "array2d"
+    if kind not in ("tuple", "list", "tuple-of-tuples", "tuple-of-lists") and not offs_fit(arrs, np.int64):
+        kind = "tuple"
     if kind == "list":
-        return [list(o) for o in offs]
-    if kind in ("ndarray", "ndarray-ro"):
-        out = [np.array(o, dtype=np.int64) for o in offs]
+        return [list(o) for o in offs], kind
+    if kind == "tuple-of-tuples":
+        return tuple(tuple(o) for o in offs), kind
+    if kind == "tuple-of-lists":
+        return tuple(list(o) for o in offs), kind
+    if kind == "np-scalars":
+        return [tuple(np.int64(v) for v in o) for o in offs], kind
+    if kind.startswith("ndarray"):
+        out = [np.array(o, dtype=OFFS_DT.get(kind, np.int64)) for o in offs]
         if kind == "ndarray-ro":
             for o in out:
                 o.flags.writeable = False
-        return out
-    return [tuple(o) for o in offs]
+        return out, kind
+    if kind.startswith("array2d"):
+        table = np.array(offs, dtype=OFFS_DT.get(kind, np.int64)).reshape(len(offs), len(offs[0]))
+        if kind == "array2d-ro":
+            table.flags.writeable = False
+        elif kind == "array2d-f":
+            table = np.asfortranarray(table)
+        elif kind == "array2d-view":  # every second row of a larger table (sentinel rows between)
+            big = np.full((2 * len(offs), len(offs[0])), 0x5A5A5A, dtype=np.int64)
+            big[::2] = table
+            table = big[::2]
+        return table, kind
+    return [tuple(o) for o in offs], "tuple"
+
+
+def snap(x):
+    """byte-level picture of one argument object: arrays with dtype, shape, strides, bytes, flags and the bytes of the
+    buffer they are a view of; sequences with their type and the pictures of their elements"""
+    if isinstance(x, np.ndarray):
+        base = x
+        while isinstance(base.base, np.ndarray):
+            base = base.base
+        return ("ndarray", x.dtype.str, x.shape, x.strides, x.tobytes(), bool(x.flags.writeable),
+                None if base is x else (base.shape, base.tobytes()))
+    if isinstance(x, (list, tuple)):
+        return (type(x).__name__, [snap(v) for v in x])
+    if isinstance(x, np.generic):
+        return ("scalar", x.dtype.str, x.tobytes())
+    return (type(x).__name__, repr(x))
+
+
+class Args:
+    """the argument objects of one merge: the container of the images (list or tuple), the offsets object, fill and mode,
+    and a picture of every one of them from before the first call.  `unchanged()` compares after a call, returning or
+    raising: the same container types and lengths, the SAME image objects at the same places, every byte as before."""
+
+    def __init__(self, pairs, offsets, fill, mode, arrs_kind="list"):
+        self.pairs = pairs
+        views = [p[0] for p in pairs]
+        self.arrays = tuple(views) if arrs_kind == "tuple" else list(views)
+        self.offsets, self.fill, self.mode = offsets, fill, mode
+        self.ids = [id(v) for v in views]
+        self.before = self.picture()
+
+    def picture(self):
+        return (snap(self.arrays), [b.tobytes() for _, b in self.pairs], snap(self.offsets), snap(self.fill), snap(self.mode))
+
+    def unchanged(self):
+        return (len(self.arrays) == len(self.ids) and all(id(a) == i for a, i in zip(self.arrays, self.ids))
+                and self.picture() == self.before)
+
+    def shared(self):
+        return len(set(self.ids)) < len(self.ids)
+
+
+ARG_DEFAULTS = {"offsets": "tuple", "arrays": "list", "fill": "float", "mode": "str"}
+
+
+def args_feats(args):
+    return {"args:" + k + "=" + v for k, v in args.kinds.items() if ARG_DEFAULTS[k] != v}
+
+
+FILL_KINDS = ["float", "int", "np64", "np32", "arr0d"]
+
+
+def make_fill(case):
+    """(the fill object pewlib receives, kind really used): a Python float (default), a Python int, a NumPy float64 /
+    float32 scalar or a 0-d array, whenever the kind holds the fill value exactly"""
+    q, kind = case["fill"], case.get("fill_kind", "float")
+    v = fill_value(q)
+    if kind == "int" and isinstance(q, int) and q % 4 == 0:
+        return q // 4, kind
+    if kind == "np64":
+        return np.float64(v), kind
+    if kind == "np32" and (not isinstance(q, int) or float(np.float32(v)) == v):
+        return np.float32(v), kind
+    if kind == "arr0d":
+        return np.array(v, dtype=np.float64), kind
+    return v, "float"
+
+
+def fill_value(q):
+    """abstract fill (None = NaN | quarters | "inf" | "-inf" | "-0") -> float"""
+    if q is None:
+        return math.nan
+    if q == "inf":
+        return math.inf
+    if q == "-inf":
+        return -math.inf
+    if q == "-0":
+        return -0.0
+    return q / 4
 
 
 def exc_class(e):
@@ -446,8 +570,16 @@ class C11(Prop):
                     dup["off"] = [o + rng.randint(-2, 2) for o in src["off"]]
                 case["arrays"].insert(rng.randint(0, len(case["arrays"])), dup)
             case["share_objects"] = True
+        # argument types: the offsets object (half of the cases: something other than a list of tuples, a third of those ONE
+        # 2-d table), the container of the images, the fill object, the mode string
+        if rng.random() < 0.5:
+            case["offs_kind"] = rng.choice(OFFS_KINDS[1:])
+        if rng.random() < 0.2:
+            case["arrs_kind"] = "tuple"
         if rng.random() < 0.3:
-            case["offs_kind"] = rng.choice(["list", "ndarray", "ndarray-ro"])
+            case["fill_kind"] = rng.choice(FILL_KINDS[1:])
+        if rng.random() < 0.1:
+            case["mode_kind"] = "npstr"
         # a second call on the same objects
         if rng.random() < 0.3:
             case["repeat"] = True
@@ -483,6 +615,19 @@ class C11(Prop):
                 for la in LAYOUTS[1:]:
                     yield {"kind": "plain", "ndim": 2, "mode": mode, "fill": fill, "offs_kind": "ndarray-ro",
                            "arrays": [{**ones, "layout": la}, {**nanarr, "layout": la}]}
+        # every kind of offsets object / image container / fill object, on offsets whose per-axis minimum is not zero
+        fz8 = lambda nm, data: {"name": nm, "dtype": "f8", "data": data}
+        for i, kind in enumerate(OFFS_KINDS):
+            mode, fill = ("replace", "mean", "sum")[i % 3], (None, 0, 40)[(i // 3) % 3]
+            extra = {"offs_kind": kind, "arrs_kind": ("list", "tuple")[i % 2], "fill_kind": FILL_KINDS[i % len(FILL_KINDS)],
+                     "repeat": i % 2 == 0}
+            yield {"kind": "plain", "ndim": 2, "mode": mode, "fill": fill, **extra,
+                   "arrays": [{**ones, "off": [2, 3]}, {**nanarr, "off": [4, 1]}, {**twos, "off": [3, 3]}]}
+            yield {"kind": "plain", "ndim": 1, "mode": mode, "fill": fill, **extra,
+                   "arrays": [{"off": [-3], "shape": [2], "data": [4, None]}, {"off": [-2], "shape": [2], "data": [8, 12]}]}
+            yield {"kind": "structured", "ndim": 2, "mode": mode, "fill": fill, **extra, "arrays": [
+                {"off": [2, 3], "shape": [1, 2], "fields": [fz8("A", [4, 8]), fz8("B", [0, None])]},
+                {"off": [4, 1], "shape": [1, 2], "fields": [fz8("B", [12, 16])]}]}
         # value classes: a blank (all-zero, also -0.0) tile beside a signal tile and a tile with some zeros; an image and
         # its negative; an image that equals the fill; zeros with NaNs; one zero pixel alone
         sig = {"off": [0, 0], "shape": [2, 2], "data": [4, 8, 12, 16]}
@@ -539,37 +684,33 @@ class C11(Prop):
                                         {**nxt, "fields": [fb("f4", [1, 8]), fa("f8", [1, 2])]}]}
 
     # ------------------------------------------------------------------ evaluation
-    def run_plain(self, register, case, arrs_desc, fill, mode, offs_kind=None, layouts=True, repeat=False):
+    def run_plain(self, register, case, arrs_desc, fill, mode, offs_kind=None, layouts=True, repeat=False, kinds=False):
         """one call of overlap_arrays (two on the same objects with `repeat`); returns (result dict, inputs_unchanged,
-        second result equals the first | None, some object occurs twice in the list)"""
+        second result equals the first | None, the Args object).  `kinds`: use the case's container / fill / mode kinds"""
         ndim = case["ndim"]
         pairs = build_objects(arrs_desc, lambda a: lay_out(to_np(a, ndim), a.get("layout", "c") if layouts else "c"),
                               case.get("share_objects", False))
-        arrays = [p[0] for p in pairs]
-        offsets = make_offsets({"arrays": arrs_desc, "offs_kind": offs_kind or "tuple"})
-        before = [b.tobytes() for _, b in pairs]
-        shapes = [(a.shape, a.strides, a.dtype.str) for a in arrays]
-        offs_before = [[int(v) for v in o] for o in offsets]
+        sub = {"arrays": arrs_desc, "offs_kind": offs_kind or "tuple"}
+        offsets, okind = make_offsets(sub)
+        fobj, fkind = make_fill(case) if kinds else (fill, "float")
+        mobj = np.str_(mode) if kinds and case.get("mode_kind") == "npstr" else mode
+        args = Args(pairs, offsets, fobj, mobj, case.get("arrs_kind", "list") if kinds else "list")
+        args.kinds = {"offsets": okind, "fill": fkind, "arrays": type(args.arrays).__name__, "mode": type(mobj).__name__}
 
         def call():
             try:
-                res = register.overlap_arrays(arrays, offsets, fill=fill, mode=mode)
+                res = register.overlap_arrays(args.arrays, args.offsets, fill=args.fill, mode=args.mode)
                 return {"shape": list(res.shape), "data": [fhex(v) for v in res.ravel()]}
             except Exception as e:  # the quantified inputs never raise
                 return {"raises": type(e).__name__, "msg": str(e)[:200]}
 
-        def same():
-            return (all(b.tobytes() == x for (_, b), x in zip(pairs, before))
-                    and shapes == [(a.shape, a.strides, a.dtype.str) for a in arrays]
-                    and [[int(v) for v in o] for o in offsets] == offs_before and len(offsets) == len(arrs_desc))
-
         out = call()
-        unchanged = same()
+        unchanged = args.unchanged()
         again = None
         if repeat:
             again = call() == out
-            unchanged = unchanged and same()
-        return out, unchanged, again, len({id(a) for a in arrays}) < len(arrays)
+            unchanged = unchanged and args.unchanged()
+        return out, unchanged, again, args
 
     def metamorphic(self, register, case, base, fill):
         """implementation against implementation; every entry must come out True"""
@@ -622,15 +763,15 @@ class C11(Prop):
         for a in case["arrays"]:
             if a.get("layout", "c") != "c":
                 feats.add("layout:" + a["layout"])
-        if case.get("offs_kind"):
-            feats.add("offsets:" + case["offs_kind"])
         if case["kind"] == "plain":
             if not exact_ok([v for a in case["arrays"] for v in a["data"]]):
                 return outcome({"excluded": "sums not exact"}, None, None, spec_ok=True, model_ok=True, undetermined=True,
                                hyp=False, features=["excluded:inexact-sums"])
             arrays = [to_np(a, ndim) for a in case["arrays"]]
-            impl, unchanged, again, shared = self.run_plain(register, case, case["arrays"], fill, mode, case.get("offs_kind"),
-                                                            repeat=bool(case.get("repeat")))
+            impl, unchanged, again, args = self.run_plain(register, case, case["arrays"], fill, mode, case.get("offs_kind"),
+                                                          repeat=bool(case.get("repeat")), kinds=True)
+            shared = args.shared()
+            feats |= args_feats(args)
             base = dict(impl)
             impl["inputs_unchanged"] = unchanged
             if again is not None:
@@ -707,32 +848,32 @@ class C11(Prop):
             return lay_out(arr, a.get("layout", "c"))
 
         pairs = build_objects(case["arrays"], make, case.get("share_objects", False))
-        arrays = [p[0] for p in pairs]
-        if len({id(a) for a in arrays}) < len(arrays):
+        offsets, okind = make_offsets(case)
+        fobj, fkind = make_fill(case)
+        mobj = np.str_(mode) if case.get("mode_kind") == "npstr" else mode
+        args = Args(pairs, offsets, fobj, mobj, case.get("arrs_kind", "list"))
+        args.kinds = {"offsets": okind, "fill": fkind, "arrays": type(args.arrays).__name__, "mode": type(mobj).__name__}
+        feats |= args_feats(args)
+        if args.shared():
             feats.add("alias:same-object-twice")
-        offsets = make_offsets(case)
-        before = [b.tobytes() for _, b in pairs]
-        offs_before = [[int(v) for v in o] for o in offsets]
 
         def call(offs):
             try:
                 with warnings.catch_warnings():
                     warnings.simplefilter("ignore", RuntimeWarning)  # NaN cast to an integer field (pixel not compared)
-                    res = register.overlap_structured_arrays(arrays, offs, fill=fill, mode=mode)
+                    res = register.overlap_structured_arrays(args.arrays, offs, fill=args.fill, mode=args.mode)
                 return {"fields": [{"name": n, "dtype": res.dtype[n].str.lstrip("<=|"), "shape": list(res.shape),
                                     "data": [impl_px(res.dtype[n].str.lstrip("<=|"), v) for v in res[n].ravel()]}
                                    for n in res.dtype.names]}
             except Exception as e:
                 return {"raises": exc_class(e), "msg": str(e)[:200]}
 
-        got = call(offsets)
-        unchanged = (all(b.tobytes() == x for (_, b), x in zip(pairs, before))
-                     and [[int(v) for v in o] for o in offsets] == offs_before)
+        got = call(args.offsets)
+        unchanged = args.unchanged()
         again = None
         if case.get("repeat"):
-            again = call(offsets)
-            unchanged = unchanged and (all(b.tobytes() == x for (_, b), x in zip(pairs, before))
-                                       and [[int(v) for v in o] for o in offsets] == offs_before)
+            again = call(args.offsets)
+            unchanged = unchanged and args.unchanged()
             feats.add("calls:second-call-on-same-objects")
         rep = ctx.driver.call("c11.structuredD", mode=mode, fill=dfill, ndim=ndim,
                               arrays=[{"off": a["off"], "shape": a["shape"],
@@ -848,7 +989,7 @@ class C11(Prop):
         if len(arrs) > 1:
             for i in range(len(arrs)):
                 yield {**case, "arrays": arrs[:i] + arrs[i + 1:]}
-        for k in ("meta", "repeat", "share_objects", "offs_kind"):  # legs and options the failure does not need
+        for k in ("meta", "repeat", "share_objects", "offs_kind", "arrs_kind", "fill_kind", "mode_kind"):  # legs and options the failure does not need
             if k in case:
                 yield {k2: v for k2, v in case.items() if k2 != k}
         for i, a in enumerate(arrs):
